@@ -130,7 +130,14 @@ IndexMutations(tu) ==
 HashMutations(tu, size) ==
     LET pool == Pool(tu, size) IN
        {[tu EXCEPT !.h = x] : x \in pool} \cup {[tu EXCEPT !.th = x] : x \in pool}
-Mutations(tu, size) == (ProofMutations(tu, size) \cup IndexMutations(tu) \cup HashMutations(tu, size)) \ {tu}
+\* two components at once: a proof of the wrong length (or the right proof) against the all-zero root or leaf hash, J(0) -
+\* the value a checker that forgets an error would compare with
+ZeroMutations(tu, size) ==
+    LET pool == Pool(tu, size) L == Len(tu.p)
+        lens == {tu} \cup {[tu EXCEPT !.p = Delete(tu.p, i)] : i \in 1..L} \cup {[tu EXCEPT !.p = Dup(tu.p, i)] : i \in 1..L}
+                     \cup {[tu EXCEPT !.p = Append(tu.p, x)] : x \in pool} \cup {[tu EXCEPT !.p = SubSeq(tu.p, 1, k)] : k \in 0..L}
+    IN {[m EXCEPT !.th = J(0)] : m \in lens} \cup {[m EXCEPT !.h = J(0)] : m \in lens} \cup {[m EXCEPT !.th = J(0), !.h = J(0)] : m \in lens}
+Mutations(tu, size) == (ProofMutations(tu, size) \cup IndexMutations(tu) \cup HashMutations(tu, size) \cup ZeroMutations(tu, size)) \ {tu}
 
 RecordTuple(t, n) == [p |-> PathR(n, 0, t), t |-> t, th |-> R(0, t), n |-> n, h |-> R(n, n + 1)]
 TreeTuple(t, n)   == [p |-> ConsR(n, t), t |-> t, th |-> R(0, t), n |-> n, h |-> R(0, n)]
